@@ -298,7 +298,7 @@ def _make_tree(tree, base):
             _make_tree(sub, p)
 
 
-async def _run_trace(ops, patterns, nbuild, outside):
+async def _run_trace(ops, patterns, nbuild, outside, probe=False):
     """In cwd (a fresh tree): register the patterns on a real Workflow, apply the operations, fold the
     items with the real Watcher.record_change and commit with the real process_nglob_changes."""
     from stepup.core.enums import Need
@@ -321,6 +321,7 @@ async def _run_trace(ops, patterns, nbuild, outside):
                 wf.register_nglob(plan, ng)
                 olds.append((ng, p_c17.canon_glob(ng._glob_pattern)))
         out["before"] = _walk()
+        out["hyp"] = (await _check_hypotheses(wf, db, olds, out["before"])) if probe else None
         w = _make_watcher(wf, db)
         for op in ops:
             items = _apply(op, outside)
@@ -347,6 +348,38 @@ async def _run_trace(ops, patterns, nbuild, outside):
     return out
 
 
+async def _check_hypotheses(wf, db, olds, existing):
+    """The two assumptions of C17_watch_batch_update_equals_rescan about the Workflow, observed on the real
+    one (no file nodes declared): accepted_relevant = every path an attached registration's regex accepts
+    passes change_is_relevant with either flag; under_complete = every recorded match below a directory is
+    yielded by relevant_paths_under(directory), with and without the trailing separator.  Returns a list of
+    (kind, detail) for the ones that fail."""
+    bad = []
+    dirs = [q for q in existing if q.endswith("/")]
+    async with db:
+        for ng, _std in olds:
+            recorded = [str(x) for x in ng.files()]
+            probes = set(recorded) | {q for q in existing if ng._regex.fullmatch(q)}
+            # not existing yet, but accepted: what a later UPDATED item would carry
+            probes |= {q + suffix for q in ("sub/new", "sub/zz.txt", "d/new", "new") for suffix in ("", "/")
+                       if ng._regex.fullmatch(q + suffix)}
+            for q in sorted(probes):
+                for flag in (False, True):
+                    if not wf.change_is_relevant(q, during_build=flag):
+                        bad.append(("accepted-path-not-relevant",
+                                    {"pattern": ng.pattern, "path": q, "during_build": flag}))
+            for d in dirs:
+                for spelled in (d, d.rstrip("/")):
+                    for flag in (False, True):
+                        got = set(map(str, wf.relevant_paths_under(spelled, during_build=flag)))
+                        miss = sorted(q for q in recorded if q.startswith(d) and q != d and q not in got)
+                        if miss:
+                            bad.append(("recorded-match-not-under-directory",
+                                        {"pattern": ng.pattern, "directory": spelled, "during_build": flag,
+                                         "missing": miss}))
+    return bad
+
+
 def _stale_only(out, rec_files, fresh_files):
     """C14's known `C14-stale-update`: an unrecorded path reported UPDATED in this batch below a directory
     that got DELETED_PARENT afterwards stays in `updated` (relevant_paths_under only knows nodes and
@@ -368,7 +401,7 @@ def _stale_only(out, rec_files, fresh_files):
     return True
 
 
-def _check_trace(ctx, seen, name, ops, patterns, nbuild):
+def _check_trace(ctx, seen, name, ops, patterns, nbuild, probe=False):
     from . import p_c17
     with tempfile.TemporaryDirectory(prefix="verif-c17b-") as tmp:
         proj = os.path.join(tmp, "proj")
@@ -377,12 +410,21 @@ def _check_trace(ctx, seen, name, ops, patterns, nbuild):
         os.mkdir(outside)
         _make_tree(BASE_TREE, proj)
         with contextlib.chdir(proj):
-            out = asyncio.run(_run_trace(ops, patterns, nbuild, outside))
+            out = asyncio.run(_run_trace(ops, patterns, nbuild, outside, probe))
     base_w = {"batch_ops": [list(o) for o in ops], "patterns": patterns, "during_build_items": nbuild,
               "items": [list(i) for i in out["items"]], "deleted": out.get("deleted"), "updated": out.get("updated"),
               "paths_before": out.get("before"), "paths_after": out.get("after"), "trace": name}
     ctx.count("batch_traces")
     ctx.count("batch_items", len(out["items"]))
+    for kind, what in out.get("hyp") or []:
+        sig = "C17:batch:hypothesis:" + kind
+        if sig not in seen:
+            seen.add(sig)
+            ctx.add_failure("oracle", "O7:batch-hypotheses", sig,
+                            f"assumption of C17_watch_batch_update_equals_rescan fails on the real Workflow: {what!r}",
+                            witness=dict(base_w, hypothesis=what))
+    if out.get("hyp") is not None:
+        ctx.count("batch_hypothesis_probe_runs")
     if out["error"] is not None:
         sig = "C17:batch:commit-raised:" + out["error"].split(":")[0]
         if sig not in seen:
@@ -410,10 +452,8 @@ def _check_trace(ctx, seen, name, ops, patterns, nbuild):
                 rx = p_c17.repaired_regex(old.pattern, old.subs, fixes)
             except (ValueError, re.error):
                 return False
-            cb, ca = set(std_before), set(std_after)
-            if p_c17.GHOST in fixes or p_c17.impl_traits()["skips_ghosts"]:
-                cb &= before
-                ca &= after
+            cb = p_c17.repaired_candidates(old.pattern, old.subs, fixes, std_before, before)
+            ca = p_c17.repaired_candidates(old.pattern, old.subs, fixes, std_after, after)
             was = {q for q in cb if rx.fullmatch(q)}
             evolved = (was | {q for q in updated if rx.fullmatch(q)}) - deleted
             return evolved == {q for q in ca if rx.fullmatch(q)}
@@ -427,7 +467,15 @@ def _check_trace(ctx, seen, name, ops, patterns, nbuild):
             p_c17.report_causes(ctx, seen, "O6", "O6:batch-update=rescan", causes, detail, w)
         else:
             # no known matcher defect explains it (or the sets agree and the grouping differs)
-            sig = "C17:batch:update-differs-from-rescan"
+            if rec_files - fresh_files and fresh_files - rec_files:
+                how = "stale-match-kept-and-match-missed"
+            elif rec_files - fresh_files:
+                how = "stale-match-kept"
+            elif fresh_files - rec_files:
+                how = "match-missed"
+            else:
+                how = "same-files-different-keys"
+            sig = "C17:batch:update-differs-from-rescan:" + how
             if ("O6", sig) not in seen:
                 seen.add(("O6", sig))
                 ctx.add_failure("oracle", "O6:batch-update=rescan", sig, detail, witness=w)
@@ -439,20 +487,45 @@ def oracle_batch(ctx, only=None):
     seen = set()
     if only is not None:
         _check_trace(ctx, seen, only.get("trace", "replay"), [tuple(o) for o in only["batch_ops"]], only["patterns"],
-                     only.get("during_build_items", 0))
+                     only.get("during_build_items", 0), probe="hypothesis" in only)
         return
-    for name, ops in NAMED_TRACES:
-        _check_trace(ctx, seen, name, ops, PATTERNS, 0)
+    for k, (name, ops) in enumerate(NAMED_TRACES):
+        _check_trace(ctx, seen, name, ops, PATTERNS, 0, probe=(k == 0))
     for k in range(ctx.scale(40, 600)):
         ops = _gen_ops(rng)
         pats = rng.sample(PATTERNS, rng.randint(2, 5))
         nbuild = rng.randint(0, 3) if rng.random() < 0.3 else 0
-        _check_trace(ctx, seen, f"random-{k}", ops, pats, nbuild)
+        _check_trace(ctx, seen, f"random-{k}", ops, pats, nbuild, probe=(k % 10 == 3))
 
 
 def replay_batch(ctx, witness):
     """Replay a witness produced by oracle_batch (`batch_ops` key) or e1_batch (`case` key)."""
     if witness and "batch_ops" in witness:
         oracle_batch(ctx, only=witness)
+        return True
+    if witness and isinstance(witness.get("case"), dict) and "items" in witness["case"]:
+        c = witness["case"]
+        rel = {True: set(c["relevant_during_build"]), False: set(c["relevant"])}
+        under = {(b, d): l for b, d, l in c["under"]}
+        items = [tuple(i) for i in c["items"]]
+
+        async def run():
+            w = _make_watcher(_StubWorkflow(rel, under))
+            await _fold_real(w, items)
+            return sorted(map(str, w.deleted)), sorted(map(str, w.updated))
+
+        deleted, updated = asyncio.run(run())
+        print("real record_change: deleted", deleted, "updated", updated)
+        chk = (f"chk_batch {coq_lstr(sorted(rel[True]))} {coq_lstr(sorted(rel[False]))} {_coq_under(under)} "
+               f"{_coq_items(items)} {coq_lstr(deleted)} {coq_lstr(updated)}")
+        bad = common.run_cases(ctx, "batchreplay", HEADER, [chk], chunk=1)
+        if set(deleted) & set(updated):
+            ctx.add_failure("correspondence", "E1:batch-fold", "C17:batch:deleted-and-updated-overlap",
+                            f"Watcher.record_change left {sorted(set(deleted) & set(updated))!r} in both sets",
+                            witness=witness)
+        if bad:
+            ctx.add_failure("correspondence", "E1:batch-fold", "C17:batch:record_change-differs-from-model",
+                            f"real sets deleted={deleted!r} updated={updated!r} differ from model/NglobBatch.v fold_changes",
+                            witness=witness)
         return True
     return False
